@@ -338,6 +338,11 @@ func (ev *Evaluator) load(a Val, pos token.Pos) (Val, error) {
 					v = Sym{fmt.Sprintf("%s.#%d", sym.Name, i)}
 					continue
 				}
+				if t, ok := v.(Term); ok {
+					// field of an uninterpreted struct value
+					v = Term{Fn: fmt.Sprintf("field#%d", i), Args: []Val{t}}
+					continue
+				}
 				return nil, &Undecided{pos, fmt.Sprintf("field path into %v", v)}
 			}
 			v = s.Fields[i]
@@ -415,6 +420,8 @@ func (ev *Evaluator) instr(env map[ssa.Value]Val, in ssa.Value) (Val, error) {
 			return s.Fields[in.Field], nil
 		case Sym:
 			return Sym{fmt.Sprintf("%s.#%d", s.Name, in.Field)}, nil
+		case Term:
+			return Term{Fn: fmt.Sprintf("field#%d", in.Field), Args: []Val{s}}, nil
 		}
 		return nil, &Undecided{in.Pos(), fmt.Sprintf("field of %v", x)}
 	case *ssa.UnOp:
@@ -621,6 +628,24 @@ func (ev *Evaluator) instr(env map[ssa.Value]Val, in ssa.Value) (Val, error) {
 		return ElemPtr{Base: x, Index: idx}, nil
 	case *ssa.Call:
 		return ev.call(env, in)
+	case *ssa.Index:
+		x, err := ev.val(env, in.X)
+		if err != nil {
+			return nil, err
+		}
+		idx, err := ev.val(env, in.Index)
+		if err != nil {
+			return nil, err
+		}
+		if cs, ok := x.(Const); ok && cs.V != nil && cs.V.Kind() == constant.String {
+			if c, ok := idx.(Const); ok && c.V != nil {
+				str := constant.StringVal(cs.V)
+				if i, _ := constant.Int64Val(c.V); i >= 0 && i < int64(len(str)) {
+					return Const{constant.MakeInt64(int64(str[i]))}, nil
+				}
+			}
+		}
+		return Elem{Base: x, Index: idx}, nil
 	case *ssa.MakeSlice:
 		return Sym{"make"}, nil
 	case *ssa.Lookup:
